@@ -12,7 +12,7 @@ from vf import drivers
 PROPERTY = "C18"
 LEVEL = "exploration"
 SHARDS = {"quick": 4, "thorough": 16}
-REQUIRED = ["request-url-components", "wsgi-equals-asgi", "replace-components", "query-helpers", "repr-masks-password"]
+REQUIRED = ["derived-request", "request-url-components", "wsgi-equals-asgi", "replace-components", "query-helpers", "repr-masks-password"]
 RULE = ("request.url: full product of schemes {http,https,ws,wss} x servers (name, IPv4, IPv6; port default/other) x Host header (absent, name, name:port, "
         "IPv6, IPv6:port, upper-case) x root paths x paths (ASCII pchar set, non-ASCII UTF-8, empty, '//' ; '?', '#' and control characters as a separately "
         "keyed class) x queries, on both interfaces. replace(): URLs with a host (6 user-info shapes x 5 hosts x 3 ports) x every subset of <=3 of the 8 "
@@ -43,6 +43,66 @@ def request_url(iface, scheme, server, host, root, path, query):
     sc = drivers.to_scope(req)
     sc["scheme"] = scheme
     return asgi.Request(sc).url
+
+
+def check_derived(ctx, rng):
+    """a second request object over a rewritten copy of (or the rewritten) environ/scope - what a path-rewriting middleware or
+    a mount produces - must show the rewritten components, whatever was read from the first request object"""
+    from baize import asgi, wsgi
+    scheme, path, query, root, host = rng.choice(["http", "https"]), rng.choice(["/a", "/a/b", "/"]), rng.choice(["", "x=1"]), rng.choice(["", "/r"]), rng.choice(["h.example", "h.example:81", None])
+    req = drivers.Req(path=path.encode(), root=root.encode(), query=query.encode(), headers=[("Host", host)] if host is not None else [], scheme=scheme, server=("srv", 8000))
+    change = rng.choice(["path", "query", "host", "scheme", "root", "nothing"])
+    new = {"path": path + "/next", "query": "y=2", "host": "other.example:82", "scheme": "https" if scheme == "http" else "http", "root": root + "/m"}
+    mode = rng.choice(["copy", "in-place"])
+    case = {"first": {"scheme": scheme, "path": path, "query": query, "root": root, "host": host}, "rewritten": change, "how": mode}
+    out = {}
+    for iface in ("wsgi", "asgi"):
+        if iface == "wsgi":
+            d = drivers.to_environ(req)
+            first = wsgi.Request(d)
+            for attr in ("url", "query_params", "headers"):
+                getattr(first, attr)
+            d2 = d if mode == "in-place" else dict(d)
+            if change == "path":
+                d2["PATH_INFO"] = new["path"]
+            elif change == "query":
+                d2["QUERY_STRING"] = new["query"]
+            elif change == "host":
+                d2["HTTP_HOST"] = new["host"]
+            elif change == "scheme":
+                d2["wsgi.url_scheme"] = new["scheme"]
+            elif change == "root":
+                d2["SCRIPT_NAME"] = new["root"]
+            u = wsgi.Request(d2).url
+        else:
+            d = drivers.to_scope(req)
+            d["scheme"] = scheme
+            first = asgi.Request(d)
+            for attr in ("url", "query_params", "headers"):
+                getattr(first, attr)
+            d2 = d if mode == "in-place" else dict(d)
+            if change == "path":
+                d2["path"] = new["path"]
+            elif change == "query":
+                d2["query_string"] = new["query"].encode()
+            elif change == "host":
+                d2["headers"] = [(k, v) for k, v in d["headers"] if k != b"host"] + [(b"host", new["host"].encode())]
+            elif change == "scheme":
+                d2["scheme"] = new["scheme"]
+            elif change == "root":
+                d2["root_path"] = new["root"]
+            u = asgi.Request(d2).url
+        e_scheme = new["scheme"] if change == "scheme" else scheme
+        e_host = new["host"] if change == "host" else host
+        eh, ep = expected_netloc(e_scheme, ("srv", 8000), e_host)
+        exp = {"scheme": e_scheme, "hostname": eh, "port": ep, "path": (new["root"] if change == "root" else root) + (new["path"] if change == "path" else path),
+               "query": new["query"] if change == "query" else query}
+        got = {"scheme": u.scheme, "hostname": u.hostname, "port": u.port, "path": u.path, "query": u.query}
+        ctx.mon("derived-request")
+        if got != exp:
+            diff = sorted(k for k in exp if exp[k] != got[k])
+            ctx.violation(f"request.url|stale-after-rewrite|{change}|{mode}|{iface}", case, f"expected {exp}, got {got} (differs: {diff})")
+    return case
 
 
 def expected_netloc(scheme, server, host):
@@ -254,6 +314,9 @@ def run(ctx):
     if not ctx.quick:
         ctx.exhaustive = True
         ctx.extra["exhaustive_bound"] = "full product schemes x servers x Host x roots x paths x queries"
+    for i in range(ctx.scale(1500, 60_000)):
+        case = check_derived(ctx, rng)
+        ctx.case(repr(case))
     ctx.sample("request-url", {"scheme": "https", "server": ("::1", 8000), "host": None, "root": "/r/é", "path": "/a b", "query": "a=1&b=%20"})
     # ---- replace
     idx = 0
